@@ -736,5 +736,90 @@ class AgentTargetDerivation(AgentEntryPoints):
     BYTE_INSERTIONS = False
 
 
+class ReentrantRequest(Bounded):
+    prop = "C24"
+    title = "a second request() issued from inside the body producer of the first (while it is being written)"
+    scope = ("bodies of 1..3 chunks with known and unknown length; the producer calls protocol.request(<second>) from "
+             "startProducing before / between / after its synchronous writes, or from a later write; the second request "
+             "must be refused (RequestNotSent) and the wire must be exactly the first request (parsed by h11); exhaustive")
+    functions = ["HTTP11ClientProtocol.request", "Request.writeTo", "Request._writeToBodyProducerChunked",
+                 "Request._writeToBodyProducerContentLength"]
+
+    def cases(self, tier, rng):
+        for known in (True, False):
+            for chunks in ((b"hello",), (b"ab", b"cd"), (b"a", b"", b"bc")):
+                for k in range(0, len(chunks) + 1):          # written synchronously inside startProducing
+                    for when in range(0, len(chunks) + 1):    # the nested request() comes before chunk number `when`
+                        yield (known, chunks, k, when)
+
+    def check(self, case):
+        from twisted.web._newclient import RequestNotSent
+        from twisted.python.failure import Failure
+        known, chunks, k, when = case
+        body = b"".join(chunks)
+        t = StringTransport()
+        proto = HTTP11ClientProtocol()
+        proto.makeConnection(t)
+        nested = []
+
+        @implementer(IBodyProducer)
+        class P:
+            length = len(body) if known else UNKNOWN_LENGTH
+
+            def __init__(self):
+                self.d = Deferred()
+                self.n = 0
+
+            def _one(self, consumer):
+                if self.n == when:
+                    self._nest()
+                consumer.write(chunks[self.n])
+                self.n += 1
+
+            def _nest(self):
+                d2 = proto.request(Request(b"GET", b"/second", Headers({b"host": [b"h"]}), None))
+                d2.addBoth(nested.append)
+
+            def startProducing(self, consumer):
+                self.consumer = consumer
+                while self.n < k:
+                    self._one(consumer)
+                if k == len(chunks) and when == len(chunks):
+                    self._nest()
+                return self.d
+
+            def drive(self):
+                while self.n < len(chunks):
+                    self._one(self.consumer)
+                if k < len(chunks) and when == len(chunks):
+                    self._nest()
+                self.d.callback(None)
+
+            def stopProducing(self):
+                pass
+
+            def pauseProducing(self):
+                pass
+
+            def resumeProducing(self):
+                pass
+
+        prod = P()
+        try:
+            d1 = proto.request(Request(b"POST", b"/first", Headers({b"host": [b"h"]}), prod))
+            d1.addErrback(lambda f: None)
+            prod.drive()
+        except Exception as e:
+            return "raised %r" % (e,)
+        if len(nested) != 1:
+            return "the nested request()'s Deferred fired %d time(s) at once" % len(nested)
+        if not (isinstance(nested[0], Failure) and nested[0].check(RequestNotSent)):
+            return "the nested request() was not refused: %r" % (nested[0],)
+        bad = compare_message(t.value(), b"POST", b"/first", [(b"host", [b"h"])], body)
+        if bad:
+            return "wire is not the first request alone: %s" % bad
+        return None
+
+
 BOUNDED = [RefuseInvalidStartLine, StartLineHeadersRoundTrip, BodyFraming, EmptyWrites, AgentEntryPoints,
-           AgentTargetDerivation]
+           AgentTargetDerivation, ReentrantRequest]
